@@ -147,12 +147,98 @@ func lightCmds(cmds []string, goal string) []string {
 	return out
 }
 
+// relevantCmds keeps only the assumptions within a few steps of the goal in the "shares a symbol" graph, ignoring hub
+// symbols (heaps, allocation frontiers) that occur in a large share of the assumptions. Dropping assumptions is sound for
+// unsat answers; the variant exists because cluttered string goals time out that are proved in a second when isolated.
+func relevantCmds(cmds []string, goal string, rounds int) []string {
+	declared := map[string]bool{}
+	for _, c := range cmds {
+		if strings.HasPrefix(c, "(declare-const ") {
+			if m := tokRe.FindString(c[len("(declare-const "):]); m != "" {
+				declared[m] = true
+			}
+		}
+	}
+	symsOf := func(t string) []string {
+		var out []string
+		seen := map[string]bool{}
+		for _, m := range tokRe.FindAllString(t, -1) {
+			if declared[m] && !seen[m] {
+				seen[m] = true
+				out = append(out, m)
+			}
+		}
+		return out
+	}
+	type item struct {
+		idx  int
+		syms []string
+	}
+	var items []item
+	count := map[string]int{}
+	for i, c := range cmds {
+		if strings.HasPrefix(c, "(assert ") {
+			it := item{i, symsOf(c)}
+			items = append(items, it)
+			for _, x := range it.syms {
+				count[x]++
+			}
+		}
+	}
+	hubLimit := len(items) / 8
+	if hubLimit < 10 {
+		hubLimit = 10
+	}
+	rel := map[string]bool{}
+	for _, x := range symsOf(goal) {
+		rel[x] = true
+	}
+	keep := map[int]bool{}
+	for r := 0; r < rounds; r++ {
+		for _, it := range items {
+			if keep[it.idx] {
+				continue
+			}
+			hit := false
+			for _, x := range it.syms {
+				if rel[x] && count[x] <= hubLimit {
+					hit = true
+					break
+				}
+			}
+			if hit {
+				keep[it.idx] = true
+			}
+		}
+		for _, it := range items {
+			if keep[it.idx] {
+				for _, x := range it.syms {
+					if count[x] <= hubLimit {
+						rel[x] = true
+					}
+				}
+			}
+		}
+	}
+	var out []string
+	for i, c := range cmds {
+		if !strings.HasPrefix(c, "(assert ") || keep[i] {
+			out = append(out, c)
+		}
+	}
+	return out
+}
+
 // buildScript assembles the SMT-LIB text of an obligation.
 func (e *Engine) buildScript(o *Obligation, forSolver string) string {
 	cmds := o.Cmds
 	if strings.HasSuffix(forSolver, "-light") {
 		forSolver = strings.TrimSuffix(forSolver, "-light")
 		cmds = lightCmds(cmds, o.Goal)
+	}
+	if strings.HasSuffix(forSolver, "-rel") {
+		forSolver = strings.TrimSuffix(forSolver, "-rel")
+		cmds = relevantCmds(cmds, o.Goal, 3)
 	}
 	body := strings.Join(cmds, "\n")
 	goal := o.Goal
@@ -618,6 +704,10 @@ func (e *Engine) solveOne(i int, o *Obligation, workdir string, timeout int, tho
 	fcl := filepath.Join(workdir, fmt.Sprintf("o%04d.cvc5l.smt2", i))
 	os.WriteFile(fzl, []byte(e.buildScript(o, "z3-light")), 0o644)
 	os.WriteFile(fcl, []byte(e.buildScript(o, "cvc5-light")), 0o644)
+	fcr := filepath.Join(workdir, fmt.Sprintf("o%04d.cvc5r.smt2", i))
+	if len(o.Cmds) > 60 {
+		os.WriteFile(fcr, []byte(e.buildScript(o, "cvc5-rel")), 0o644)
+	}
 	o.File = fz
 	t0 := time.Now()
 	defer func() { o.Time = time.Since(t0).Seconds() }()
@@ -674,7 +764,7 @@ func (e *Engine) solveOne(i int, o *Obligation, workdir string, timeout int, tho
 		// stage B: the other solvers and the light variants race; the first definitive answer wins
 		// (thorough: all are heard, a disagreement is an error)
 		ctx, cancel := context.WithCancel(context.Background())
-		ch := make(chan solverResult, 6)
+		ch := make(chan solverResult, 8)
 		n := 0
 		for _, c := range solvers {
 			if !thorough && c.name == "z3-new" {
@@ -682,6 +772,17 @@ func (e *Engine) solveOne(i int, o *Obligation, workdir string, timeout int, tho
 			}
 			n++
 			go func(c solverCfg) { ch <- runSolver(ctx, c, fileFor(c), timeout) }(c)
+		}
+		if len(o.Cmds) > 60 {
+			n++
+			go func() {
+				r := runSolver(ctx, solvers[1], fcr, timeout)
+				r.solver += "-rel"
+				if r.answer != "unsat" && r.answer != "cancelled" {
+					r.answer = "rel-" + r.answer
+				}
+				ch <- r
+			}()
 		}
 		if len(o.Cmds) > 120 {
 			for _, c := range []solverCfg{solvers[0], solvers[1]} {
